@@ -37,7 +37,11 @@ def prinValueOK (g : Gen) (v : Str) : Bool :=
   | _ => true
 
 /-- The peer identity (if any) has the Istio form. -/
-def Request.peerOK (r : Request) : Bool := r.peer.all fun i => i.wf && i.nsSafe
+def Request.peerOK (r : Request) : Bool :=
+  (r.peer.all fun i => i.wf && i.nsSafe) &&
+  -- no request header with an empty value (for those the generated `present_match` of the value
+  -- `*` differs from the documented "not empty": finding 4)
+  (r.http.all fun h => !h.host.isEmpty && !h.method.isEmpty && h.headers.all fun e => !e.2.isEmpty)
 
 def permTranslated (tcp : Bool) (r : MRule) : Bool :=
   if r.g.extended then
